@@ -235,6 +235,18 @@ def run(out: core.Outcome) -> None:
     with mp.get_context("fork").Pool(core.NCPU) as pool:
         parts = pool.map(_record_many, [(seeds[i : i + per], length) for i in range(0, ntr, per)])
     traces = [t for p in parts for t in p]
+    # binding self-test: a log with one corrupted field (an aliasing representative / a radius) must be rejected
+    import copy
+
+    bogus = copy.deepcopy(next(t for t in traces if len(t["events"]) >= 5))
+    k = len(bogus["events"]) // 2
+    obs = bogus["events"][k]["obs"]
+    if len(obs["rep"]) >= 2 and obs["rep"][-1] != 1:
+        obs["rep"][-1] = 1
+    else:
+        obs["vals"][0]["r"] += 1
+    bogus["corrupted_at"] = k + 1
+    traces.append(bogus)
     core.WORK.mkdir(exist_ok=True)
     accepted = 0
     events = 0
@@ -261,6 +273,12 @@ def run(out: core.Outcome) -> None:
             events += len(t["events"])
             ops_seen.update(e["o"]["op"] for e in t["events"])
             got = reached.get(i, 0)
+            if "corrupted_at" in t:
+                out.traces -= 1
+                if got >= t["corrupted_at"]:
+                    raise core.MachineryError("TraceCollections accepted a corrupted log (binding is vacuous)")
+                out.extra["corrupted_log_rejected_at_event"] = got + 1
+                continue
             if got == len(t["events"]):
                 accepted += 1
             else:
@@ -268,6 +286,6 @@ def run(out: core.Outcome) -> None:
                 out.violation({"recorded_log": {"seed": t["seed"], "init": t["init"], "rejected_at_event": got + 1, "call": ev["o"],
                                                 "exception": ev["e"], "ops_before": [e["o"] for e in t["events"][:got]]},
                                "fails": ["the recorded call with this outcome is not a step of Collections.tla"]})
-    out.parts["recorded_logs"] = {"logs": len(traces), "accepted": accepted, "events": events, "operations_seen": sorted(ops_seen)}
+    out.parts["recorded_logs"] = {"logs": len(traces) - 1, "accepted": accepted, "events": events, "operations_seen": sorted(ops_seen)}
     if len(ops_seen) < 20:
         raise core.MachineryError(f"random driver exercised only {sorted(ops_seen)}")
